@@ -1,5 +1,183 @@
 import Driver.Util
+import KavaVerif.Model.Ante
+/-!
+  C15 driver (ante gating).  One self-contained case per line; the forest, the option URLs and the signers are
+  what the harness *observed* on the real (decoded) transaction.
+
+  forest syntax (space separated tokens, "-" = no message):
+      p=<url>   a message that is neither MsgGrant nor MsgExec, with its sdk.MsgTypeURL
+      g=<url>   MsgGrant, with the MsgTypeURL() of its unpacked authorization
+      G!        MsgGrant whose authorization cannot be unpacked
+      ( … )     MsgExec around the inner forest
+      X         MsgExec whose content cannot be unpacked
+
+  c15.authz    list forest => ok|err|panic                 the real AuthzLimiterDecorator(list…) alone
+  c15.vesting  forest => ok|err                            the real VestingAccountDecorator alone
+  c15.mempool  isCheckTx isReCheckTx simulate signers authorised => ok|err
+  c15.ante     mode auth authorised signers opts nonCritical forest => tag accepted code
+               mode ∈ check|recheck|sim|deliver; tag = pass | the gate that refused | late:<codespace>:<code>
+               (refused by a decorator outside the property) | prevalidate (refused by baseapp before the ante handler)
+
+  Each handler (1) compares the model's verdict with the implementation's (MISMATCH) and (2) evaluates the
+  property's own predicates on the implementation's observation, with the type URLs the prose names (PREDFAIL).
+-/
 namespace Drv.C15
+open KV.Ante KV.Gen
+
+/-- the message types the prose of C15 names -/
+def specEth : String := "/ethermint.evm.v1.MsgEthereumTx"
+def specVesting : List String :=
+  ["/cosmos.vesting.v1beta1.MsgCreateVestingAccount", "/cosmos.vesting.v1beta1.MsgCreatePermanentLockedAccount",
+   "/cosmos.vesting.v1beta1.MsgCreatePeriodicVestingAccount"]
+def specBlocked : List String := specEth :: specVesting
+def specEthOpt : String := "/ethermint.evm.v1.ExtensionOptionsEthereumTx"
+def specWeb3Opt : String := "/ethermint.types.v1.ExtensionOptionsWeb3Tx"
+
+/-- stack parser for the forest tokens: `cur` is the current level reversed, `stack` the enclosing levels -/
+def parseToks : List String → List (List Msg) → List Msg → Option (List Msg)
+  | [], [], cur => some cur.reverse
+  | [], _ :: _, _ => none
+  | t :: ts, stack, cur =>
+    if t == "(" then parseToks ts (cur :: stack) []
+    else if t == ")" then
+      match stack with
+      | parent :: rest => parseToks ts rest (Msg.exec cur.reverse :: parent)
+      | [] => none
+    else if t == "G!" then parseToks ts stack (Msg.grantBad :: cur)
+    else if t == "X" then parseToks ts stack (Msg.execBad :: cur)
+    else if t.startsWith "p=" then parseToks ts stack (Msg.plain (t.drop 2).toString :: cur)
+    else if t.startsWith "g=" then parseToks ts stack (Msg.grant (t.drop 2).toString :: cur)
+    else none
+
+def forest? (s : String) : Option (List Msg) :=
+  let t := s.trimAscii.toString
+  if t == "-" || t == "" then some []
+  else parseToks ((t.splitOn " ").filter (· != "")) [] []
+
+def resStr : Res → String
+  | .ok => "ok" | .err => "err" | .panic => "panic"
+
+def verdictStr : Verdict → String
+  | .pass => "pass"
+  | .reject w => w
+
+def mode? : String → Option Mode
+  | "check" => some Mode.check
+  | "recheck" => some Mode.recheck
+  | "sim" => some Mode.sim
+  | "deliver" => some Mode.deliver
+  | _ => none
+
+def hasTop (p : Msg → Bool) (ms : List Msg) : Bool := ms.any p
+
+def isPlainOf (u : String) : Msg → Bool
+  | .plain v => v == u
+  | _ => false
+
+/-- c15.authz -/
+def handleAuthz : Handler
+  | [list, forest, _, res] =>
+    match forest? forest with
+    | none => badInput "forest"
+    | some ms =>
+      let bl := strs list
+      let m := authzLimiter bl ms
+      let reach := reachList bl ms false
+      let malf := malfList ms
+      -- the property on the implementation's answer first: a failing input beats a mere disagreement
+      if res == "ok" && reach then predfail "C15_closure" "reachable-blocked-accepted"
+      else if res == "ok" && malf then predfail "C15_closure" "malformed-accepted"
+      else if res != "ok" && !reach && !malf then predfail "C15_closure_converse" "over-blocked"
+      else if res == "panic" && !malf then predfail "C15_closure_converse" "panic-on-wellformed"
+      else if resStr m != res then mismatch "authz" (resStr m) res
+      else "ok"
+  | _ => badInput "arity"
+
+/-- c15.vesting -/
+def handleVesting : Handler
+  | [forest, _, res] =>
+    match forest? forest with
+    | none => badInput "forest"
+    | some ms =>
+      let m := if vestingDec c15VestingDisabled ms then "ok" else "err"
+      let top := hasTop (fun x => specVesting.contains x.url) ms
+      if res == "ok" && top then predfail "C15_vesting_top_level" "accepted"
+      else if res != "ok" && !top then predfail "C15_vesting_top_level" "over-blocked"
+      else if m != res then mismatch "vesting" m res
+      else "ok"
+  | _ => badInput "arity"
+
+/-- c15.mempool -/
+def handleMempool : Handler
+  | [isCheck, isRe, sim, signers, authorised, _, res] =>
+    match bool? isCheck, bool? isRe, bool? sim, nats? signers, nats? authorised with
+    | some ic, some ir, some sm, some sg, some au =>
+      let md : Mode := ⟨ic, ir, sm⟩
+      let m := if mempoolDec md sg au then "ok" else "err"
+      let common := sg.any fun a => au.contains a
+      if res == "ok" && ic && !sm && !common then predfail "C15_mempool" "unauthorised-admitted decorator"
+      else if res != "ok" && (!ic || sm) then predfail "C15_mempool" "block-execution-affected decorator"
+      else if res != "ok" && common then predfail "C15_mempool" "authorised-refused decorator"
+      else if m != res then mismatch "mempool" m res
+      else "ok"
+    | _, _, _, _, _ => badInput "parse"
+  | _ => badInput "arity"
+
+/-- c15.ante -/
+def handleAnte : Handler
+  | [mode, auth, authorised, signers, opts, _nonCrit, forest, _, tag, accepted, _code] =>
+    match mode? mode, bool? auth, nats? authorised, nats? signers, forest? forest, bool? accepted with
+    | some md, some auth, some au, some sg, some ms, some acc =>
+      let os := strs opts
+      let cfg : Cfg := { mempoolAuth := auth, authorised := au }
+      let tx : Tx := { msgs := ms, opts := os, signers := sg }
+      let v := anteGate cfg md tx
+      let late := tag.startsWith "late:"
+      let ethRoute := os == [specEthOpt]
+      -- (1) model vs implementation
+      let cmp :=
+        if tag == "prevalidate" then "ok"                     -- refused by baseapp before the ante handler
+        else if acc != (tag == "pass") then badInput "accepted-flag"
+        else if ethRoute then
+          -- the Ethereum chain is modelled by its message-type test only; its other checks may refuse first
+          if acc && !v.isPass then mismatch "ante" (verdictStr v) tag else "ok"
+        else if v.isPass then
+          if acc || late then "ok" else mismatch "ante" "pass" tag
+        else
+          if verdictStr v == tag then "ok" else mismatch "ante" (verdictStr v) tag
+      -- (2) the property on the implementation's own observation (reported in preference to a disagreement)
+      let reach := reachList specBlocked ms false
+      let malf := malfList ms
+      let topVest := hasTop (fun x => specVesting.contains x.url) ms
+      let topEth := hasTop (isPlainOf specEth) ms
+      let common := sg.any fun a => au.contains a
+      let routeTag := if ethRoute then "eth-route" else "cosmos-route"
+      let pred :=
+      if acc then
+        if reach then predfail "C15_closure" s!"wrapped-blocked-accepted {mode}"
+        else if topVest then predfail "C15_vesting_top_level" s!"accepted {mode}"
+        else if os.length > 1 then predfail "C15_routing" s!"several-options-accepted {mode}"
+        else if os.length == 1 && !(os == [specEthOpt] || os == [specWeb3Opt]) then
+          predfail "C15_routing" s!"unknown-option-accepted {mode}"
+        else if topEth && !ethRoute then predfail "C15_routing" s!"eth-msg-outside-eth-path {mode}"
+        else if ethRoute && !(ms.all (isPlainOf specEth)) then predfail "C15_routing" s!"non-eth-msg-on-eth-path {mode}"
+        else if auth && md.isCheckTx && !md.simulate && !common then
+          predfail "C15_mempool" s!"unauthorised-admitted {routeTag} {mode}"
+        else "ok"
+      else
+        if tag == "mempool" && (!md.isCheckTx || md.simulate) then
+          predfail "C15_mempool" s!"block-execution-affected {mode}"
+        else if tag == "mempool" && (!auth || common) then predfail "C15_mempool" s!"authorised-refused {mode}"
+        else if tag == "authz" && !reach && !malf then predfail "C15_closure_converse" s!"over-blocked {mode}"
+        else if tag == "vesting" && !topVest then predfail "C15_vesting_top_level" s!"over-blocked {mode}"
+        else if tag == "reject-msgs" && !topEth then predfail "C15_routing" s!"over-blocked {mode}"
+        else "ok"
+      if tag != "prevalidate" && acc != (tag == "pass") then cmp
+      else if pred != "ok" then pred else cmp
+    | _, _, _, _, _, _ => badInput "parse"
+  | _ => badInput "arity"
+
 /-- handlers of property C15: (command name, handler) -/
-def handlers : List (String × Handler) := []
+def handlers : List (String × Handler) :=
+  [("c15.authz", handleAuthz), ("c15.vesting", handleVesting), ("c15.mempool", handleMempool), ("c15.ante", handleAnte)]
 end Drv.C15
